@@ -14,7 +14,7 @@ COMMON_TRUSTED = [
 PROPS = {
     "C17": {
         "modules": ["AmVerif.Props.C17", "AmVerif.Lemmas.Cell", "AmVerif.Lemmas.CellStep", "AmVerif.Lemmas.CellFail", "AmVerif.Lemmas.CellLive"],
-        "engines": [{"name": "cell", "quick": 240, "thorough": 1200}],
+        "engines": [{"name": "cell", "quick": 400, "thorough": 4000}],
         "rule": "case 0 enumerates every call sequence of length 3 over {get, init-ok, init-err, init-panic} for the three seed kinds (no destructor / recorded destructor / panicking destructor) with the observable state after each call and the ledger at drop; case 1 every pair of single-call free-running threads per kind; case 2 every (held initialiser outcome x other call) forced overlap per kind plus the malformed op lines; later cases alternate random sequential cell lives, free-running 2-5 thread call lists (each distinct observed outcome validated: some schedule of the model must explain it) and forced overlaps (first initialiser parked inside the once-closure while get and the other calls are issued); a case is non-trivial when it performs at least one call on a cell; distinct = distinct op/result transcripts",
         "trusted": COMMON_TRUSTED + [
             "modelled, not verified: once_cell::sync::OnceCell<()> (at most one closure runs at a time, other callers block until it returned, Err / panic leaves it empty, Ok makes it initialised for good; get never blocks), Rust's unwinding and scope-exit drop order for the locals of get_or_try_init_*, one statement of the function body = one atomic step under sequential consistency",
